@@ -83,6 +83,12 @@ class NoneObject:
     def __len__(self):
         return 0
 
+    def __getattr__(self, name):
+        # An attribute of a field that does not exist, does not exist either (like the interpreted selector handles it)
+        if name.startswith("__"):
+            raise AttributeError(name)
+        return self
+
 
 NONE_OBJECT = NoneObject()
 
